@@ -165,3 +165,24 @@ Theorem C17_exact_reload_refuted :
            (B "cart") ps) <> None.
 Proof. exact exact_reload_refuted. Qed.
 Print Assumptions C17_exact_reload_refuted.
+
+(* a request whose context ends (cancelled / deadline passed - before the call, between or during its
+   partials, while other renders hold the render slots): every Render of the request gives the
+   partial's own content or is refused, in whatever way the engine's state (context, slots, scheduler)
+   decides; then the call gives the complete answer or an error without content, never a part *)
+Theorem C17_gone_all_or_nothing :
+  forall (St : Type) (renderS : St -> bytes -> St * option bytes) (render : bytes -> option bytes),
+  (forall s n, snd (renderS s n) = render n \/ snd (renderS s n) = None) ->
+  forall s t ps,
+    snd (render_partialsS St renderS s t ps) = render_partials render t ps \/
+    snd (render_partialsS St renderS s t ps) = None.
+Proof. exact gone_all_or_nothing. Qed.
+Print Assumptions C17_gone_all_or_nothing.
+
+(* a loop that stops quietly when a render is refused hands out a part of the request without an error *)
+Theorem C17_gone_break_refuted :
+  exists ps p m,
+    rp_loopS_break nat leaving_render (Nat.eqb 0) 1 (B "cart") ps [] = Some m /\
+    In p ps /\ lookup p m = None.
+Proof. exact gone_break_refuted. Qed.
+Print Assumptions C17_gone_break_refuted.
